@@ -174,10 +174,43 @@ impl<'ast> Visit<'ast> for BodyWalker {
         }
         let mut cc = CC(0);
         cc.visit_block(&e.body);
+        // statement-form `continue;` anywhere in the body (nested blocks, not nested loops/closures), each with the spans of the
+        // statements that follow its enclosing statement in every enclosing block up to the loop body (for the D8b flag form)
+        struct FC<'a> { stack: Vec<(&'a syn::Block, usize)>, out: Vec<Value>, other: usize }
+        impl<'a> Visit<'a> for FC<'a> {
+            fn visit_block(&mut self, b: &'a syn::Block) {
+                for (i, st) in b.stmts.iter().enumerate() {
+                    self.stack.push((b, i));
+                    if let syn::Stmt::Expr(syn::Expr::Continue(c), _) = st {
+                        if c.label.is_none() {
+                            let mut rests: Vec<Value> = vec![];
+                            for (blk, idx) in self.stack.iter() {
+                                if idx + 1 < blk.stmts.len() {
+                                    rests.push(json!([start(blk.stmts[idx + 1].span()), end(blk.stmts[blk.stmts.len() - 1].span())]));
+                                }
+                            }
+                            self.out.push(json!({"kw": rng(c.span()), "rests": rests}));
+                        } else { self.other += 1; }
+                    } else {
+                        self.visit_stmt(st);
+                    }
+                    self.stack.pop();
+                }
+            }
+            fn visit_expr_continue(&mut self, _c: &'a syn::ExprContinue) { self.other += 1; }
+            fn visit_expr_for_loop(&mut self, _e: &'a syn::ExprForLoop) {}
+            fn visit_expr_while(&mut self, _e: &'a syn::ExprWhile) {}
+            fn visit_expr_loop(&mut self, _e: &'a syn::ExprLoop) {}
+            fn visit_expr_closure(&mut self, _e: &'a syn::ExprClosure) {}
+        }
+        let mut fc = FC { stack: vec![], out: vec![], other: 0 };
+        fc.visit_block(&e.body);
+        let flag_continues = if fc.other == 0 { fc.out } else { vec![] };
         self.loops.push(json!({
             "kind": "for",
             "guard_continues": guards,
             "continues": cc.0,
+            "flag_continues": flag_continues,
             "kw": start(e.for_token.span()),
             "label": e.label.as_ref().map(|l| l.name.ident.to_string()),
             "pat": rng(e.pat.span()),
